@@ -769,13 +769,64 @@ def _check_compile(compiler: T.Any, ea: T.List[str], command: T.List[str]) -> No
                  'Compiler.compile(extra_args)', observed, expected, {'extra_args': ea, 'command': command})
 
 
+def _mk_basic_args(orig: T.Any) -> T.Any:
+    """Contract on CLikeCompiler._get_basic_compiler_args(mode): in LINK mode the option-derived link arguments
+    (<lang>_link_args: LDFLAGS, -D<lang>_link_args) reach the check's command line; the ones that cannot be
+    de-duplicated keep their order and multiplicity."""
+    def _get_basic_compiler_args(self: T.Any, mode: T.Any) -> T.Any:
+        res = orig(self, mode)
+        if not STATE.enabled or STATE.depth:
+            return res
+        try:
+            if getattr(mode, 'name', '') != 'LINK':
+                return res
+            from mesonbuild.options import OptionKey
+            store = self.environment.coredata.optstore
+            value = store.get_value_for(OptionKey(f'{self.language}_link_args', machine=self.for_machine))
+            cvalue = store.get_value_for(OptionKey(f'{self.language}_args', machine=self.for_machine))
+            if not isinstance(value, list):
+                return res
+            t = refargs.CLIKE
+            nd = [a for a in value if t.kind(a) == refargs.NONE]
+            if not nd:
+                STATE.count('contract:check-link-option-args:trivial')
+                return res
+            STATE.count('contract:check-link-option-args')
+            ndset = set(nd)
+            cargs = list(res[0])
+            largs = list(res[1])
+            both = cargs + largs
+            # <lang>_args (CFLAGS) are on the line already and are wanted once only, so the copy of them that the option
+            # carries may be left out; what must not happen is that the line ends up with FEWER occurrences of a
+            # non-dedupable argument than the link option holds, or with the kept ones in another order
+            lost = sorted(a for a in ndset if both.count(a) < nd.count(a))
+            kept = [a for a in largs if a in ndset]
+            it = iter(nd)
+            in_order = all(any(a == b for b in it) for a in kept)
+            if lost or not in_order:
+                also_c = isinstance(cvalue, list) and lost and all(a in cvalue for a in lost)
+                mech = ('compiler-check-drops-link-args-that-also-occur-in-lang-args' if also_c
+                        else 'compiler-check-link-option-args-differ:' + ('lost' if lost else 'order'))
+                _violate(mech, None, '_get_basic_compiler_args(LINK)', {'compile_args': cargs, 'link_args': largs},
+                         {'lost': lost, 'link_args_option': list(value)},
+                         {'lang_args_option': list(cvalue) if isinstance(cvalue, list) else repr(cvalue)})
+        except Exception as e:
+            _monitor_error('basic-args', e)
+        return res
+    return _get_basic_compiler_args
+
+
 def install_compile_contract() -> None:
     from mesonbuild.compilers import compilers
+    from mesonbuild.compilers.mixins import clike
     if ('compile', 'contract') in _ORIG:
         return
     orig = compilers.Compiler.__dict__['compile']
     _ORIG[('compile', 'contract')] = orig      # type: ignore[index]
     compilers.Compiler.compile = _mk_compile(orig)
+    orig2 = clike.CLikeCompiler.__dict__['_get_basic_compiler_args']
+    _ORIG[('basic-args', 'contract')] = orig2  # type: ignore[index]
+    clike.CLikeCompiler._get_basic_compiler_args = _mk_basic_args(orig2)
 
 
 def install_shadow(rec: T.Callable[[dict], None]) -> None:
